@@ -244,7 +244,7 @@ class World:
         elif k == "unfreeze":
             self.m.unfreeze_tree()
         elif k == "load":
-            self.m.load([(a, b) for a, b in op[1]], overwrite=op[2])
+            self.m.load([(T.path_str(a), T.show(b)) for a, b in op[1]], overwrite=op[2])
         else:
             raise ValueError(f"unknown op {op!r}")
 
@@ -277,7 +277,7 @@ def op_str(op):
     if k in ("regfun", "regknob", "unregid"):
         return f"{k}({op[1]!r})"
     if k == "load":
-        return f"m.load({list(op[1])!r}, overwrite={op[2]})"
+        return f"m.load({[(T.path_str(a), T.show(b)) for a, b in op[1]]!r}, overwrite={op[2]})"
     return f"m.{k}()"
 
 
